@@ -25,7 +25,71 @@ DWARF_QUERIES = [
     "(|D N| [D entry (offset >= N) ?root] length)", "(|D N| D raw unit (offset >= N) root offset)",
     "(|D N| D entry (offset == N) unit offset)", "(|D N| D entry (offset >= N) !root parent ?root offset)",
     "(|D N| D abbrev entry (offset >= N) code)", "(|D N| D entry (offset == N) attribute label)",
+    # words that ask libdw for something a DIE may not have (libdw keeps the last error per thread)
+    "(|D N| D entry (offset >= N) address)", "(|D N| [D entry (offset >= N) (address, @AT_high_pc, @AT_ranges)] length)",
+    "(|D N| D entry (offset >= N) (?AT_low_pc, ?AT_location) [address, @AT_location, @AT_frame_base] length)",
+    "(|D N| D unit (offset >= N) [root address, entry @AT_decl_file] length)",
+    "(|D N| D entry (offset == N) [attribute (address, value)] length)",
 ]
+
+
+def multi_input(ctx, h):
+    """one compiled query on a stream of DIFFERENT Dwarf values (`dwopen` over several file names — forests with different
+    contents, ELF objects for different machines): what it yields for each is what it yields for that file alone.  Words are
+    built once per query; whatever they remember must not reach the next input."""
+    import os
+    from . import dwcorr, elfsym, c07, c17, c18
+    fs = dwcorr.Forests(ctx)
+    rng = ctx.rng
+    queries = [dwcorr.RAW_QUERY, dwcorr.COOKED_QUERY, c07.VALUE_QUERY, c17.ABBREV_Q, c17.LOC_Q, c17.DIE_Q, c18.QUERY,
+               "entry [offset, name, [@AT_type offset], [parent offset], [root offset]]", "unit [offset, [entry offset]]",
+               "entry attribute [label, form, [?(form == (DW_FORM_data1, DW_FORM_string, DW_FORM_strp, DW_FORM_ref4, DW_FORM_udata)) value]]",
+               "[symbol [name, label, binding, visibility]]", "[entry ?root] length", "[abbrev entry] length",
+               "[entry address] length", "entry [offset, [address], [@AT_high_pc]]", "unit [offset, [root address]]"]
+    n = 8 if ctx.tier == "quick" else 60
+    ok = tot = 0
+    try:
+        files = []
+        for k in range(n):
+            desc, path = fs.make(rng, max_units=4, min_units=1, cu_imports=0.3 if k % 2 else 0.0, rich_ops=0.3, extras=0.4,
+                                 versions=((2, 3, 4, 5) if k % 3 else (5,)))
+            files.append(path)
+        for k in range(n // 2):
+            o = elfsym.gen_symobj(rng, elfsym.TARGETS[rng.randrange(len(elfsym.TARGETS))])
+            path = os.path.join(fs.dir, "sym%d.o" % k)
+            open(path, "wb").write(o.bytes())
+            files.append(path)
+        alone = {}
+        for rep in range(20 if ctx.tier == "quick" else 300):
+            q = rng.choice(queries)
+            pool = range(len(files)) if "symbol" in q else range(n)          # the symbol-only objects carry no DWARF
+            ks = [rng.choice(pool) for _ in range(rng.randint(2, 3))]
+            if rng.random() < 0.3:
+                ks.append(ks[0])                      # the first file again, after another one
+            for k in set(ks):
+                if (k, q) not in alone:
+                    r, c = h.run_impl_robust(["Q - %s %s" % (zwcorr.hx(q), zwcorr.hx(files[k]))])
+                    alone[(k, q)] = None if (c or r[0].err) else list(r[0].res)
+            if any(alone[(k, q)] is None for k in ks):
+                continue
+            mq = "(%s) dwopen %s" % (", ".join('"%s"' % files[k] for k in ks), q)
+            r, c = h.run_impl_robust(["Q - %s" % zwcorr.hx(mq)])
+            tot += 1
+            want = [x for k in ks for x in alone[(k, q)]]
+            got = None if (c or r[0].err) else list(r[0].res)
+            if got != want:
+                i = next((i for i, (a, b) in enumerate(zip(got or [], want)) if a != b), min(len(got or []), len(want)))
+                ctx.violation("one compiled query `%s` on a stream of %d files: result #%d is %s; the same query on that file alone "
+                              "yields %s" % (q[:60], len(ks), i, (got[i][:200] if got and i < len(got) else (c or (r[0].err if r else None))),
+                                             want[i][:200] if i < len(want) else None),
+                              {"stream": "C12-multi-input", "input": {"query": mq, "files_b64": [fs.inp(None, files[k], q)["object_b64"] for k in ks]},
+                               "got": got[i] if got and i < len(got) else None, "expected": want[i] if i < len(want) else None,
+                               "theorem": "ZwVerif.C12.exec_independent"})
+            else:
+                ok += 1
+    finally:
+        fs.cleanup()
+    return ok, tot
 
 
 def dwarf_histories(ctx, h):
@@ -179,6 +243,9 @@ def run(ctx):
                           {"stream": "C12-cross-compilation", "input": {"first": a, "second": b}, "got": ra[1].raw[:6] if len(ra) > 1 else None,
                            "expected": rb[0].raw[:6] if rb else None, "theorem": "ZwVerif.C12.static_state_audit"})
     dok, dpulls, dn = (0, 0, 0) if ctx.replay else dwarf_histories(ctx, h)
+    mok, mtot = (0, 0) if ctx.replay else multi_input(ctx, h)
+    ctx.cov["multi_input_streams_ok"] = mok
+    ctx.cov["multi_input_streams"] = mtot
     ctx.cov["dwarf_histories_ok"] = dok
     ctx.cov["dwarf_histories"] = dn
     ctx.cov["dwarf_pulls_compared_with_fresh_dwarf"] = dpulls
